@@ -924,7 +924,11 @@ def check_cases(ck, cases, tag: str, structural: bool = True):
         bad, info = oracle(spec, passes, seed, protos, raised, use_ort=(ci % 3 == 0))
         ck.count()
         if not info["valid"]:
+            # not executable / not checker-valid: no oracle verdict, but the structural correspondence still applies
             ck.hist("outcomes", "outside-quantifier:" + info.get("invalid", "")[:28])
+            for st in steps:
+                st.case = ci
+                steps_all.append(st)
             continue
         ck.hist("ort", info["ort"])
         for p in passes:
